@@ -16,4 +16,6 @@ def run(ctx):
 
 
 def replay(data):
-    return astar_checks.replay(data, 'c09')
+    r1 = astar_checks.replay(data, 'c09')
+    r2, _ = glue_checks.replay(data, 'c09')
+    return 1 if (r1 or r2) else 0
